@@ -311,5 +311,5 @@ def tasks(ctx):
     t = []
     for sh in range(NSHARDS):
         t.append((task_enum, dict(shard=sh, stride=stride)))
-        t.append((task_random, dict(shard=sh, n=ctx.pick(60, 1500))))
+        t.append((task_random, dict(shard=sh, n=ctx.pick(150, 1500))))
     return t
